@@ -24,6 +24,8 @@ import itertools
 import socket as _real_socket
 from typing import Any, Dict, List
 
+from . import priv as PV          # private state of Client objects, found on the object (not by name)
+
 
 class Hang(Exception):
     """the code under test keeps polling the fake socket without coming back from one API call (an endless loop);
@@ -68,6 +70,25 @@ class _Sock:
         self.w["inbuf"] = self.w["inbuf"][len(chunk):]
         memoryview(buf).cast('B')[:len(chunk)] = chunk
         return len(chunk)
+
+
+_REAL = ("socket", "select", "time")
+
+
+def _save(CL):
+    from .rebind import snapshot
+    return snapshot(CL, _REAL)
+
+
+def _install(CL, shims):
+    """socket / select / time stand-ins of `_shims`, under any import style of client.py"""
+    from .rebind import rebind
+    rebind(CL, dict(zip(_REAL, shims)))
+
+
+def _restore(CL, saved):
+    from .rebind import reinstate
+    reinstate(CL, saved)
 
 
 def _shims(world):
@@ -176,7 +197,7 @@ def check_entry_points() -> Dict[str, Any]:
     import pyrtma.core_defs as cd
     failures: List[Dict[str, Any]] = []
     n = 0
-    saved = (CL.socket, CL.select, CL.time)
+    saved = _save(CL)
     try:
         for entry, logger, daemon, allow, name, mid, timecode in itertools.product(
                 ("connect", "connect_kw", "client_context"), (False, True), (False, True), (False, True), ("", "nm"),
@@ -184,7 +205,7 @@ def check_entry_points() -> Dict[str, Any]:
             if entry == "client_context" and daemon:
                 continue        # client_context has no daemon option
             world = {"sent": b"", "inbuf": _ack_bytes(timecode, mid or 117) * 4}
-            CL.socket, CL.select, CL.time = _shims(world)
+            _install(CL, _shims(world))
             n += 1
             if sum(1 for f in failures if 'Hang' in str(f.get('what'))) >= 4:
                 break       # the call hangs every time: the hangs recorded so far are the verdict
@@ -236,7 +257,7 @@ def check_entry_points() -> Dict[str, Any]:
                 ("disconnect", "eof_on_read", "reset_on_send", "still_connected"), (0, 12, registered_static_id()), (False, True),
                 (False, True), (False, True)):
             world = {"sent": b"", "inbuf": _ack_bytes(timecode, mid or 117) * 2}
-            CL.socket, CL.select, CL.time = _shims(world)
+            _install(CL, _shims(world))
             n += 1
             if sum(1 for f in failures if 'Hang' in str(f.get('what'))) >= 4:
                 break       # the call hangs every time: the hangs recorded so far are the verdict
@@ -290,7 +311,7 @@ def check_entry_points() -> Dict[str, Any]:
                 failures.append({"entry": "reconnect", "options": opts, "frames": frames[:3], "what": b})
     finally:
         _disarm()
-        CL.socket, CL.select, CL.time = saved
+        _restore(CL, saved)
     return {"cases": n, "failures": failures}
 
 
@@ -305,7 +326,7 @@ def check_reconnect_state() -> Dict[str, Any]:
     from pyrtma.header import get_header_cls
     failures: List[Dict[str, Any]] = []
     n = 0
-    saved = (CL.socket, CL.select, CL.time)
+    saved = _save(CL)
     T1 = cd.MT_EXIT if hasattr(cd, "MT_EXIT") else cd.MT_CLIENT_INFO
     try:
         for how, sub_all, timecode in itertools.product(("disconnect", "eof_on_read", "reset_on_send", "still_connected"),
@@ -315,7 +336,7 @@ def check_reconnect_state() -> Dict[str, Any]:
                 break       # the call hangs every time: the hangs recorded so far are the verdict
             _arm()
             world = {"sent": b"", "inbuf": _ack_bytes(timecode, 12) * 3}     # handshake (2) + subscribe (1)
-            CL.socket, CL.select, CL.time = _shims(world)
+            _install(CL, _shims(world))
             tag = dict(first_session_ended_by=how, subscribed_to_all=sub_all, timecode=timecode)
             try:
                 c = CL.Client(module_id=12, timecode=timecode, name="rc")
@@ -354,9 +375,9 @@ def check_reconnect_state() -> Dict[str, Any]:
                 world["inbuf"] = _ack_bytes(timecode, 12) * 2 + bytes(h)
                 c.connect("h:1")
                 reported = sorted(int(t) for t in c.subscribed_types)
-                if reported or getattr(c, "_sub_all", False):
+                if reported or PV.get_sub_all(c):
                     failures.append(dict(tag, property="C02", what=f"after reconnecting, the client reports subscriptions "
-                                         f"{reported}{' and subscribe-to-all' if getattr(c, '_sub_all', False) else ''}; the manager "
+                                         f"{reported}{' and subscribe-to-all' if PV.get_sub_all(c) else ''}; the manager "
                                          f"has none for the new connection"))
                 got = None
                 try:
@@ -367,13 +388,13 @@ def check_reconnect_state() -> Dict[str, Any]:
                 if got is not None:
                     failures.append(dict(tag, property="C08", what=f"after reconnecting (no subscription made on the new "
                                          f"connection) read_message returned {got!r} for a queued frame of type {T1}"))
-                c._connected = False
+                PV.set_connected(c, False)
             except Exception as e:  # noqa: BLE001
                 failures.append(dict(tag, property="C02", what=f"raised {type(e).__name__}: {e}"))
                 failures.append(dict(tag, property="C08", what=f"raised {type(e).__name__}: {e}"))
     finally:
         _disarm()
-        CL.socket, CL.select, CL.time = saved
+        _restore(CL, saved)
     return {"cases": n, "failures": failures}
 
 
@@ -426,7 +447,7 @@ def entry_model_cases() -> List[Dict[str, Any]]:
     import pyrtma.client as CL
     import pyrtma.core_defs as cd
     out: List[Dict[str, Any]] = []
-    saved = (CL.socket, CL.select, CL.time)
+    saved = _save(CL)
     n = 0
     mids = registered_mids()
     mid_lines = [f"MID {_hexs(k)} {i}" for k, i in mids]
@@ -436,7 +457,7 @@ def entry_model_cases() -> List[Dict[str, Any]]:
                                                                       (0, 12, 99, registered_static_id()), (False, True)):
             for label, kind, calls in entry_shapes(logger, daemon, allow, name, mid, tc):
                 world = {"sent": b"", "inbuf": _ack_bytes(tc, mid or 117) * 4}
-                CL.socket, CL.select, CL.time = _shims(world)
+                _install(CL, _shims(world))
                 cid = f"e{n}"
                 n += 1
                 if sum(1 for c0 in out if any("raised_Hang" in l for l in c0["protocol"])) >= 4:
@@ -459,7 +480,7 @@ def entry_model_cases() -> List[Dict[str, Any]]:
                             pass
                         p, k = calls["connect"]
                         c.connect(*p, **k)
-                        c._connected = False
+                        PV.set_connected(c, False)
                 except Exception as e:  # noqa: BLE001
                     err = f"raised_{type(e).__name__}"
                 frames = _decode(world["sent"], tc)
@@ -482,5 +503,5 @@ def entry_model_cases() -> List[Dict[str, Any]]:
                             "calls": {w: [list(p), dict(k)] for w, (p, k) in calls.items()}, "protocol": lines})
     finally:
         _disarm()
-        CL.socket, CL.select, CL.time = saved
+        _restore(CL, saved)
     return out
